@@ -20,70 +20,7 @@
      - as invariants over Divide events recorded from the real code (FairShareTrace),
      - the grid itself is exported as the scenario set run against the real code.
 *)
-EXTENDS Integers, Sequences, FiniteSets, FiniteSetsExt, TLC
-
-CONSTANTS Scale,      \* units per rounding unit
-          Slack       \* tolerance (in 1/Scale units) when judging float results
-
-Unl == -1
-
-Min2(a, b) == IF a < b THEN a ELSE b
-Max2(a, b) == IF a > b THEN a ELSE b
-SumOver(S, f(_)) == MapThenSumSet(f, S)
-
-(***************************************************************************)
-(* The contract, over an input record                                      *)
-(*   inp = [total, kn, kd, queues : Seq([des, lim, w, prio, req, use])]    *)
-(* and a result fs : Seq(Int) aligned with inp.queues.                     *)
-(***************************************************************************)
-Idx(inp) == 1..Len(inp.queues)
-Q(inp, i) == inp.queues[i]
-Des(inp, i) == IF Q(inp, i).des = Unl THEN inp.total ELSE Q(inp, i).des
-CapReq(inp, i) == IF Q(inp, i).lim = Unl THEN Q(inp, i).req ELSE Min2(Q(inp, i).lim, Q(inp, i).req)
-Given(inp, i) == Min2(Des(inp, i), CapReq(inp, i))
-Surplus(inp, fs, i) == fs[i] - Given(inp, i)
-ToDivide(inp) == Max2(0, inp.total - SumOver(Idx(inp), LAMBDA i : Given(inp, i)))
-Left(inp, fs) == ToDivide(inp) - SumOver(Idx(inp), LAMBDA i : Surplus(inp, fs, i))
-
-\* a queue that still wants resources (judged with tolerance s: s = 0 inside the model)
-Wants(inp, fs, i, s) == fs[i] + s < CapReq(inp, i)
-\* sum of over-quota weights of the queues of priority p that still want resources
-\* (wf[j] = 1 iff queue j still has a positive remaining request in the final state: computed
-\*  exactly by the model, logged from the real floats by the harness)
-WSum(inp, wf, p) == SumOver({j \in Idx(inp) : Q(inp, j).prio = p /\ wf[j] = 1}, LAMBDA j : Q(inp, j).w)
-\* numerator of the effective (time-based-fairness adjusted) weight of queue i among the wanting
-\* queues of its priority: max(0, nW + k (nW - usage)) > 0 with nW = w/W, k = kn/kd, usage = use/Scale
-EffNum(inp, wf, i) ==
-  LET W == WSum(inp, wf, Q(inp, i).prio)
-  IN  Max2(0, Q(inp, i).w * (inp.kd + inp.kn) * Scale - inp.kn * Q(inp, i).use * W)
-EffPos(inp, fs, wf, i, s) == Wants(inp, fs, i, s) /\ wf[i] = 1 /\ Q(inp, i).w > 0 /\ EffNum(inp, wf, i) > 0
-
-C09c_Lower(inp, fs) == \A i \in Idx(inp) : fs[i] + Slack >= Given(inp, i)
-C09c_Upper(inp, fs) == \A i \in Idx(inp) : fs[i] < Max2(Given(inp, i), CapReq(inp, i)) + Scale + Slack
-C09c_Conservation(inp, fs) ==
-  SumOver(Idx(inp), LAMBDA i : Surplus(inp, fs, i)) <= ToDivide(inp) + Slack * Len(inp.queues)
-C09c_NoWaste(inp, fs, wf) ==
-  Left(inp, fs) > Slack * (Len(inp.queues) + 1) => \A i \in Idx(inp) : ~EffPos(inp, fs, wf, i, Slack)
-\* while a higher priority holds a queue that still wants resources and has positive effective
-\* weight, all strictly lower priorities together hold less than one unit per queue at or above it
-C09c_PriorityOrder(inp, fs, wf) ==
-  \A i \in Idx(inp) : EffPos(inp, fs, wf, i, Slack) =>
-     LET p == Q(inp, i).prio
-         lower == {j \in Idx(inp) : Q(inp, j).prio < p}
-         upper == {j \in Idx(inp) : Q(inp, j).prio >= p}
-     IN  SumOver(lower, LAMBDA j : Surplus(inp, fs, j)) < Scale * Cardinality(upper) + Slack * Len(inp.queues)
-\* same priority, same usage, same deserved/limit/request: the larger weight does not get less
-\* surplus than the smaller one, up to one rounding unit
-C09c_WeightMonotone(inp, fs) ==
-  \A i, j \in Idx(inp) :
-     (/\ Q(inp, i).prio = Q(inp, j).prio /\ Q(inp, i).use = Q(inp, j).use
-      /\ Q(inp, i).des = Q(inp, j).des /\ Q(inp, i).lim = Q(inp, j).lim /\ Q(inp, i).req = Q(inp, j).req
-      /\ Q(inp, i).w > Q(inp, j).w)
-     => Surplus(inp, fs, i) + Scale + Slack >= Surplus(inp, fs, j)
-
-Contract(inp, fs, wf) ==
-  /\ C09c_Lower(inp, fs) /\ C09c_Upper(inp, fs) /\ C09c_Conservation(inp, fs)
-  /\ C09c_NoWaste(inp, fs, wf) /\ C09c_PriorityOrder(inp, fs, wf) /\ C09c_WeightMonotone(inp, fs)
+EXTENDS FairShareContract
 
 (***************************************************************************)
 (* The algorithm (design model).                                           *)
